@@ -37,7 +37,9 @@ func c01Clients(r gen.R, known []uint32) []memClient {
 			addr = ""
 		}
 		// (each configured controller has a time zone of its own: neither requests nor results depend on it)
-		cfgs[0].Devices = append(cfgs[0].Devices, DevCfg{ID: id, Name: fmt.Sprintf("dev%d", i), Addr: addr, Proto: protos[i%4], NewDevice: i%2 == 0, TZ: []string{"Pacific/Auckland", "America/New_York", "Asia/Kolkata"}[i%3]})
+		cfgs[0].Devices = append(cfgs[0].Devices, DevCfg{ID: id, Name: fmt.Sprintf("dev%d", i), Addr: addr, Proto: protos[i%4], NewDevice: i%2 == 0, TZ: []string{"Pacific/Auckland", "America/New_York", "Asia/Kolkata"}[i%3],
+			// (... and door names of its own - all four, fewer, some blank: the bytes of a request are those of the call's arguments)
+			Doors: [][]string{{"front", "", "side", ""}, {"only"}, {"a", "b", "c", "d"}, nil, {"", "", "", ""}}[i%5]})
 	}
 	out := []memClient{}
 	for _, cfg := range cfgs {
